@@ -427,6 +427,61 @@ PROPS['C16'] = C16Spec(
 # ---------------------------------------------------------------------------
 class C18Spec(LPSpec):
     real_lane = {'quick': 0.02, 'thorough': 0.03}
+    big_lane = {'quick': 0.004, 'thorough': 0.01}
+
+    def build_big(self, rng, tier):
+        sc = LPSpec.build_big(self, rng, tier)
+        sc['ops'] = [['solve', {}], ['get_results'], ['solve', {}],
+                     ['get_results'], ['get_debug'], ['get_debug']]
+        return sc
+
+    def evaluate_big(self, sc):
+        """re-solve at scale on real CBC: no exception, same status, same
+        criterion values, valid matching (no enumeration needed)"""
+        import refmodel as rm
+        ctx = oracles.LPContext(sc)
+        tr = execute.run_lp(sc, keep_sets=False)
+        res = {'violations': [], 'probes': {'big-lane': 1},
+               'nontrivial': True, 'skipped': None}
+        if backend_fault(tr):
+            res['skipped'] = 'real-backend-fault:' + backend_fault(tr)
+            res['nontrivial'] = False
+            return tr, res
+        exc = oracles.first_exception(tr)
+        if exc is not None:
+            e = exc['exc']
+            if e['type'] == 'RunTimeout':
+                res['skipped'] = 'harness-timeout'
+                return tr, res
+            res['violations'].append(
+                ('exception:' + e['type'], e['site'] or exc['op'],
+                 {'msg': e['msg'], 'op': exc['op'], 'big': True,
+                  'history': [c['op'] for c in tr.calls]}))
+            return tr, res
+        seen = []
+        for c in tr.calls:
+            if c['op'] == 'get_results':
+                r = oracles.parse_results(c['text'])
+                kv = None
+                if r['status'] == 'Optimal' and r['matching'] is not None \
+                        and rm.acceptable(ctx.I, r['matching']):
+                    m = rm.measures(ctx.I, r['matching'])
+                    kv = [rm.key(ctx.I, m, n, e) for n, e in ctx.crit]
+                    if not rm.valid(ctx.I, r['matching'], ctx.pc):
+                        res['violations'].append(
+                            ('resolve-invalid-matching', 'get_results',
+                             {'epoch': c['solve_index'], 'big': True}))
+                seen.append((r['status'], kv))
+        if len(seen) == 2 and seen[0] != seen[1]:
+            res['violations'].append(
+                ('resolve-changes-status' if seen[0][0] != seen[1][0]
+                 else 'resolve-changes-criterion-value', 'get_results',
+                 {'first': seen[0], 'second': seen[1], 'big': True}))
+        dbg = [c['text'] for c in tr.calls if c['op'] == 'get_debug']
+        if len(dbg) == 2 and dbg[0] != dbg[1]:
+            res['violations'].append(
+                ('getter-not-idempotent', 'get_debug', {'big': True}))
+        return tr, res
 
     def shrink(self, sc):
         ops = sc['ops']
